@@ -752,6 +752,10 @@ def loop_package(lp):
     loop = [comp("work", 0, ["in0:ref"] if lp["src"] else [], lp["wa"].get("work"))]
     if lp["two"]:
         loop.append(comp("check", 0, ["work:ref"], lp["wa"].get("check")))
+    side = lp.get("side")
+    if side:
+        # a looped component next to work/check (independent, or a consumer of one of them) - optional key, C01
+        loop.append(comp("side", 0, ["%s:ref" % side["of"]] if side.get("of") else [], lp["wa"].get("side")))
     dw = {"type": "DoWhile", "inputBindings": {"in0": {"type": "ref"}} if lp["src"] else {}, "loopBindings": {},
           "condition": "%s/iteration.next:output" % lp["cond"], "components": loop}
     main = []
@@ -764,6 +768,171 @@ def loop_package(lp):
     for c in lp["consumers"]:
         main.append(comp(c["name"], c["stage"], ["stage%d.%s:%s" % (S, c["of"], c["method"])]))
     return yaml.safe_dump({"components": main}), {"conf/dowhile.yaml": yaml.safe_dump(dw)}
+
+
+def loop_upstream(lp, name):
+    """names of the looped components `name` (transitively) consumes from inside the loop, `name` included"""
+    deps = {"work": [], "check": ["work"] if lp.get("two") else None,
+            "side": ([lp["side"]["of"]] if lp["side"].get("of") else []) if lp.get("side") else None}
+    seen, todo = set(), [name]
+    while todo:
+        n = todo.pop()
+        if n in seen or deps.get(n) is None:
+            continue
+        seen.add(n)
+        todo += deps[n]
+    return seen
+
+
+def loop_names(lp):
+    return ["work"] + (["check"] if lp.get("two") else []) + (["side"] if lp.get("side") else [])
+
+
+def gen_loop_case_offpath(rng):
+    """DoWhile packages built around the motif "a looped component that is OFF the critical path of the loop
+    condition": the next iteration is instantiated as soon as the producer of the condition has finished, so an
+    instance of such a component can still be running when newer instances of it exist, have run and are over.
+    Looped components: work, optionally check (consumer of work), optionally side (independent of the others or a
+    consumer of one of them); the condition is produced by any of them, but so that at least one looped component is
+    not upstream of it.  Consumers outside the loop reference the off-path components (:ref and/or :loopref, same or
+    next stage), one more references a random looped component.  case["laggards"] names the off-path components;
+    laggard_chooser keeps their older instances running for a while."""
+    S = rng.choice([0, 0, 1])
+    iters = rng.choice([2, 2, 3, 3, 4])
+    has_src = S == 1 or rng.random() < 0.4
+    shape = rng.choice(["check-after-cond", "side-independent", "side-independent", "side-after-work",
+                        "side-after-check", "three"])
+    lp = {"stage": S, "iters": iters, "src": has_src, "two": False, "cond": "work", "side": None}
+    if shape == "check-after-cond":
+        lp.update(two=True, cond="work")
+    elif shape == "side-independent":
+        lp.update(two=rng.random() < 0.5, side={"of": None})
+        lp["cond"] = rng.choice(["work", "check"]) if lp["two"] else "work"
+    elif shape == "side-after-work":
+        lp.update(two=rng.random() < 0.5, side={"of": "work"})
+        lp["cond"] = rng.choice(["work", "check"]) if lp["two"] else "work"
+    elif shape == "side-after-check":
+        lp.update(two=True, side={"of": "check"}, cond=rng.choice(["work", "check"]))
+    else:
+        lp.update(two=True, side={"of": rng.choice([None, "work"])}, cond="work")
+    names = loop_names(lp)
+    off = sorted(n for n in names if n not in loop_upstream(lp, lp["cond"]))
+    consumers = []
+    used = set()
+    for n in off:
+        ms = rng.choice([["loopref"], ["ref"], ["ref", "loopref"]])
+        for m in ms:
+            nm = ("collect" if m == "loopref" else "after") + ("" if not used else str(len(used)))
+            used.add(nm)
+            consumers.append({"name": nm, "stage": S + rng.choice([0, 0, 1]), "of": n, "method": m})
+    if rng.random() < 0.5:
+        consumers.append({"name": "extra", "stage": S + rng.choice([0, 1]), "of": rng.choice(names),
+                          "method": rng.choice(["ref", "loopref"])})
+    wa = {}
+    for n in names:
+        w = {}
+        if rng.random() < 0.2:
+            w["shutdownOn"] = sorted(rng.sample(["KnownIssue", "SystemIssue", "Cancelled"], rng.choice([1, 2])))
+        if rng.random() < 0.2:
+            w["restartHookOn"] = ["ResourceExhausted"]
+        wa[n] = w
+    lp.update(consumers=consumers, bystander=rng.random() < 0.3, wa=wa)
+    return {"loop": lp, "laggards": off, "hold": rng.choice([12, 30, 60]),
+            "scripts": None, "seed": rng.randrange(1 << 30), "personality": rng.choice(sorted(PERSONALITIES)),
+            "p_split": rng.choice([0.0, 0.3, 0.6]), "flavour": rng.choice(["success", "success", "success", "mixed"]),
+            "real": rng.random() < 0.15}
+
+
+def laggard_chooser(inner, rng, laggards, hold):
+    """schedule bias for DoWhile runs: the task of an instance of a looped component named in `laggards` is kept running
+    (its ["exit", i] is vetoed: another op is drawn, at last a scheduler pass) while the instance of the NEXT iteration
+    does not exist or is not over, and for a geometric number of further draws after that; at most `hold` vetoes per
+    instance (every second instance is not held at all), so that every run still ends"""
+    vetoes = {}
+    free = {}
+
+    def choose(sim):
+        op = None
+        for _try in range(4):
+            op = inner(sim)
+            if op is None or op[0] != "exit":
+                return op
+            ref = sim.refs[op[1]]
+            k, name = _iteration_of(ref)
+            if k is None or name not in laggards:
+                return op
+            if ref not in free:
+                free[ref] = rng.random() < 0.35
+            if free[ref] or vetoes.get(ref, 0) >= hold:
+                return op
+            nxt = "%s.%d#%s" % (ref.split(".", 1)[0], k + 1, name)
+            over = nxt in sim.comp and sim.state_name(nxt) in FINAL
+            if over and rng.random() < 0.25:
+                free[ref] = True
+                return op
+            vetoes[ref] = vetoes.get(ref, 0) + 1
+        return ["sched"]
+    choose.notify = getattr(inner, "notify", None) or (lambda *a: None)
+    return choose
+
+
+def loop_model_requests(lp, res):
+    """Correspondence of a DoWhile run whose tasks all succeed with the Lean model St4sd.CtrlLoop (one request per
+    consumer outside the loop): the real trace is translated step by step into model ops - ["exit",k,n] for every
+    looped instance that entered a final state in the step, ["crit",k,n,1] / ["post",k,n] for the locked part and the
+    comp_done.add of a finished-notification of a looped instance (op fin = both, finB / finC one each), ["sched"]
+    for every scheduler pass (and for any other step in which the consumer was launched) - and the abstraction of
+    the real state after every step (current iteration; phase of every instance: 0 not over, 1 final, 2 locked part
+    of finishedCheck done, 3 in comp_done; consumer launched) is what the model must answer.
+    -> [(consumer ref, request, expected snaps)]"""
+    names = loop_names(lp)
+    pre = "stage%d." % lp["stage"]
+
+    def inst(ref):
+        k, name = _iteration_of(ref)
+        if k is None or name not in names or not ref.startswith(pre):
+            return None
+        return k, names.index(name)
+    insts = [inst(r) for r in res.refs]
+    out = []
+    for c in lp["consumers"]:
+        cref = "stage%d.%s" % (c["stage"], c["name"])
+        if cref not in res.refs:
+            continue
+        ci = res.refs.index(cref)
+        groups, expected = [], []
+        prev = []
+        for op, snap in zip(res.ops, res.snaps):
+            comps = snap["comps"]
+            infl = dict((i, st) for i, st in snap.get("inflight", []))
+            g = []
+            for i in range(len(comps)):
+                if insts[i] is not None and comps[i][0] in FINAL and not (i < len(prev) and prev[i][0] in FINAL):
+                    g.append(["exit", insts[i][0], insts[i][1]])
+            kind = op[0]
+            if kind in ("fin", "finB", "finC") and insts[op[1]] is not None:
+                k, n = insts[op[1]]
+                if kind in ("fin", "finB"):
+                    g.append(["crit", k, n, 1])
+                if kind in ("fin", "finC"):
+                    g.append(["post", k, n])
+            launched = ci < len(comps) and comps[ci][3] > 0
+            if kind == "sched" or (launched and not (ci < len(prev) and prev[ci][3] > 0)):
+                g.append(["sched"])
+            groups.append(g)
+            cur = max(insts[i][0] for i in range(len(comps)) if insts[i] is not None)
+            ph = [[0] * len(names) for _ in range(cur + 1)]
+            for i in range(len(comps)):
+                if insts[i] is None:
+                    continue
+                st, done = comps[i][0], comps[i][1]
+                ph[insts[i][0]][insts[i][1]] = 3 if done else 2 if infl.get(i) == 2 else 1 if st in FINAL else 0
+            expected.append({"cur": cur, "launched": bool(launched), "ph": ph})
+            prev = comps
+        req = {"loop": {"n": len(names), "cond": names.index(lp["cond"]), "refs": [names.index(c["of"])]},
+               "script": [k + 1 < lp["iters"] for k in range(lp["iters"])], "ops": groups}
+        out.append((cref, req, expected))
+    return out
 
 
 def _iteration_of(ref):
@@ -836,6 +1005,7 @@ def run_loop(case, chooser_factory):
         res.result = sim.run(chooser)
         res.results = list(sim.results)
         res.ops = sim.ops()
+        res.snaps = [sn for _op, sn in sim.trace]
         res.refs = list(sim.refs)
         res.scripts = {r: list(scripts.get(r, [])) for r in sim.refs}
         res.final = [sim.state_name(r) for r in sim.refs]
@@ -894,6 +1064,20 @@ def run_loop(case, chooser_factory):
                 elif truth == "shutdown" and not is_agg:
                     res.launch_bad.append(["nonaggregating-launched-on-shutdown-producer", ref, p, at])
         res.inflight_scheds = sum(1 for op, snap in sim.trace if op[0] == "sched" and "inflight" in snap)
+        # instances of looped components that were still running when the instance of the NEXT iteration was over,
+        # and the consumers outside the loop that were launched after such an instance ended (they had to wait for it)
+        res.outlived = []
+        for r in sim.refs:
+            k, name = _iteration_of(r)
+            if k is None:
+                continue
+            nxt = "%s.%d#%s" % (r.split(".", 1)[0], k + 1, name)
+            a, b = sim.final_clock.get(r), sim.final_clock.get(nxt)
+            if a is not None and b is not None and a > b:
+                res.outlived.append(r)
+        res.waited_for_outlived = sorted(set(
+            ref for ref, clock, _at, _st in launches if _iteration_of(ref)[0] is None
+            for p in G.predecessors(ref) if p in res.outlived and sim.final_clock[p] <= clock))
         return res
     finally:
         if sim is not None:
